@@ -2,7 +2,7 @@
 # Copies the contract mirror into /repo (comment-only files behind the build tag `verif`).
 set -e
 cd "$(dirname "$0")/contracts"
-find . -name verif_contracts.go | while read f; do
+find . -name "verif_contracts*.go" | while read f; do
   mkdir -p "/repo/$(dirname "$f")"
   cp "$f" "/repo/$f"
 done
